@@ -510,7 +510,8 @@ def decode_case(case):
 # logical names a, b, s (inputs) and c (new target); a NameProxy spells them at the library boundary
 NAME_QUADS = [("a", "b", "s", "c"), ("X", "Y", "Z", "P"), ("T", "Idx", "A", "a1"), ("ab", "abc", "b", "a"),
               ("speed", "sp", "s2", "S"), ("id", "u", "i", "ui"), ("a_b", "A", "a1", "V"), ("Y", "Z", "X", "T"),
-              ("ele", "time", "elevation", "timer")]
+              ("ele", "time", "elevation", "timer"), ("xy", "yz", "zt", "xyz"), ("yzt", "xyzt", "ty", "tz"),
+              ("dx", "id", "ti", "im")]
 
 
 def build(case):
